@@ -40,7 +40,7 @@ RULE = (
 )
 ASSUMPTIONS = ["for 'auto' / byte-string axes the oracle only demands a partition whose largest block is within max(limit x array.chunk-size-tolerance, one element x the fixed axes' block)"]
 
-POSITIONS = ["source", "elemwise", "transpose", "concatenate", "expand_dims", "slice_below", "slice_above", "rechunk_rechunk", "reduction_above", "shared", "store", "unknown_axis"]
+POSITIONS = ["source", "elemwise", "transpose", "concatenate", "expand_dims", "slice_below", "slice_above", "rechunk_rechunk", "reduction_above", "shared", "store", "unknown_axis", "where_out", "store_slice"]
 SPECS = ["int", "tuple_ints", "tuple_tuples", "dict", "minus1", "none_entries", "auto", "bytes", "limit", "balance", "threshold", "tasks"]
 
 
@@ -171,7 +171,7 @@ def gen_case(rng, big):
     p = {
         "shape": shape, "dtype": rng.choice(["f8", "f8", "i8", "i4", "f4"]), "seed": rng.randrange(10**6),
         "chunks": [list(rand_composition(rng, n)) for n in shape], "chunks2": [list(rand_composition(rng, n)) for n in shape],
-        "source": "store" if pos == "store" else "numpy", "grid": [rng.choice([1, 2, 3, 5, max(1, n // 2), n, n + 3]) for n in shape],
+        "source": "store" if pos in ("store", "store_slice") else "numpy", "grid": [rng.choice([1, 2, 3, 5, max(1, n // 2), n, n + 3]) for n in shape],
         "pos": pos, "kind": kind, "rseed": rng.randrange(10**9),
     }
     if p["source"] == "numpy" and rng.random() < 0.15:
@@ -193,6 +193,23 @@ def build(p, da, rng):
     elif pos == "elemwise":
         b = leaf_values(tuple(p["shape"]), p["dtype"], "perm", p["seed"] + 1)
         x, xv = src + da.from_array(b, chunks=tuple(tuple(c) for c in p["chunks2"])), a + b
+    elif pos == "where_out":
+        # ufunc(..., where=<array>, out=<array>): out is a real per-block input that takes part in chunk unification
+        b = leaf_values(tuple(p["shape"]), p["dtype"], "perm", p["seed"] + 1)
+        o = leaf_values(tuple(p["shape"]), p["dtype"], "perm", p["seed"] + 2)
+        w = (leaf_values(tuple(p["shape"]), "i8", "perm", p["seed"] + 3) % 3) != 0
+        o_da = da.from_array(o.copy(), chunks=tuple(tuple(c) for c in p["chunks2"]))
+        w_da = da.from_array(w, chunks=tuple(tuple(c) for c in p["chunks"]))
+        da.add(src, da.from_array(b, chunks=tuple(tuple(c) for c in p["chunks"])), where=w_da, out=o_da)
+        xv = o.copy()
+        np.add(a, b, where=w, out=xv)
+        x = o_da
+    elif pos == "store_slice":
+        # a slice absorbed into the read as a region, then the rechunk
+        idx = tuple(slice(rng.randint(0, n // 2), rng.randint((n + 1) // 2, n)) for n in a.shape)
+        x, xv = src[idx], a[idx]
+        if 0 in xv.shape:
+            x, xv = src, a
     elif pos == "transpose":
         axes = list(range(a.ndim))
         rng.shuffle(axes)
@@ -417,3 +434,8 @@ def finalize(ctx):
         ctx.inconc("no block was inspected")
     if ctx.counters.get("rechunk_rewrites_checked", 0) == 0:
         ctx.inconc("no rewrite of a Rechunk was observed")
+
+
+RULE += (
+    ' Positions also include ufunc(where=<array>, out=<array>) results and slices of chunked stores (regions) under every spec kind.'
+)
